@@ -249,6 +249,18 @@ def b_hist(ctx):
             h2 = df.load_collective.histogram(nb).to_pandas()
             if int(round(h2.sum())) != len(fr):
                 ctx.fail('C14:histogram-total', f'histogram({nb}) counts {h2.sum()} of {len(fr)} cycles (from={fr}, to={to})', {'from': fr, 'to': to})
+            # every occupied class contains (closed limits, both levels) at least as many cycles as it counts, and the mean classes cover the means of the
+            # collective (added after seed C14-g labelled the mean level with the class limits of the range level)
+            ml_, mr_ = h2.index.get_level_values('mean').left.min(), h2.index.get_level_values('mean').right.max()
+            if ml_ > means.min() + 1e-12 or mr_ < means.max() - 1e-12:
+                ctx.fail('C14:histogram-mean-classes', f'histogram({nb}): the mean classes cover [{ml_}, {mr_}], the means of the collective are {means.tolist()} (from={fr}, to={to})', {'from': fr, 'to': to, 'bins': nb})
+            else:
+                for (ri_, mi_), c_ in h2.items():
+                    if c_ > 0:
+                        have = int(((rng >= ri_.left - 1e-12) & (rng <= ri_.right + 1e-12) & (means >= mi_.left - 1e-12) & (means <= mi_.right + 1e-12)).sum())
+                        if have < int(round(c_)):
+                            ctx.fail('C14:histogram-class-membership', f'histogram({nb}): class range {ri_} / mean {mi_} counts {c_} cycles, {have} cycles lie inside it (from={fr}, to={to})', {'from': fr, 'to': to, 'bins': nb})
+                            break
             h1 = df.load_collective.range_histogram(nb).to_pandas()
             marg = h2.groupby('range').sum()
             if not np.array_equal(np.asarray(marg.values, dtype=float), np.asarray(h1.values, dtype=float)) and len(set(rng)) > 1:
@@ -273,6 +285,13 @@ def b_hist(ctx):
                     ctx.fail(f'C14:grouped-histogram-raises:{type(e).__name__}', f'histogram({nb}, axis) raises {type(e).__name__}: {e} for from={fr}, to={to}', {'from': fr, 'to': to})
                     continue
                 ctx.case(True, key=(tuple(fr), tuple(to), 'grouped-2d', nb))
+                for node, sel in (('a', slice(0, None, 2)), ('b', slice(1, None, 2))):
+                    rn_ = np.abs(np.array(fr + fr) - np.array(to + to))[sel]
+                    mn_ = ((np.array(fr + fr) + np.array(to + to)) / 2)[sel]
+                    for (ri_, mi_), c_ in h2g.xs(node, level='node').items():
+                        if c_ > 0 and int(((rn_ >= ri_.left - 1e-12) & (rn_ <= ri_.right + 1e-12) & (mn_ >= mi_.left - 1e-12) & (mn_ <= mi_.right + 1e-12)).sum()) < int(round(c_)):
+                            ctx.fail('C14:grouped-histogram-class-membership', f'grouped histogram({nb}): node {node}, class range {ri_} / mean {mi_} counts {c_} cycles that do not lie inside it (from={fr}, to={to})', {'from': fr, 'to': to, 'bins': nb})
+                            break
                 t2 = h2g.groupby('node').sum()
                 for node, sel in (('a', slice(0, None, 2)), ('b', slice(1, None, 2))):
                     want = len((fr + fr)[sel])
